@@ -221,7 +221,10 @@ def one_history(rng, res, intern, stream, label, fresh):
       before_args = dict(cfg.__arguments__)
       before_hist = snapshot_hist(cfg)
       before_tags = {k: set(v) for k, v in cfg.__argument_tags__.items()}
-      tracking_on = history.tracking_enabled()
+      tracking_on = not depth     # the harness's own count of open suspend blocks, not the library's flag
+      if history.tracking_enabled() != tracking_on:
+        problems.append(f"tracking_enabled() is {history.tracking_enabled()} inside {len(depth)} open "
+                        "suspend_tracking block(s)")
       if not tracking_on and hop[0] not in ("suspend_begin", "suspend_end"):
         clean = False
       outcome = apply_hop(cfg, hop, stack, depth)
